@@ -149,13 +149,43 @@ func checkMain(args []string) {
 	uncontr := map[string]bool{}
 	bounded := map[string]bool{}
 	var unsupported []string
+	// Callee contracts relied upon: a function of this property that calls F modularly sees only F's contract. The
+	// postconditions a property needs from a function tagged with other properties carry an explicit
+	// [label also Cxx] tag and are selected through it; the remaining relied-upon callees are listed in the evidence
+	// (they are checked under their own properties: selecting all of them here would make a change that breaks
+	// one property raise alarms for every property whose functions merely call the changed one).
+	byName := map[string]*FnResult{}
+	for _, r := range results {
+		byName[r.Name] = r
+	}
+	relied := map[string]bool{}
+	var work []string
+	for _, r := range results {
+		if hasProp(r.Props, *prop) {
+			work = append(work, r.UsedCallees...)
+		}
+	}
+	for len(work) > 0 {
+		n := work[len(work)-1]
+		work = work[:len(work)-1]
+		r := byName[n]
+		if r == nil || relied[n] || hasProp(r.Props, *prop) {
+			continue
+		}
+		relied[n] = true
+		work = append(work, r.UsedCallees...)
+	}
+	var reliedList []string
 	for _, r := range results {
 		obs := selectObligations(r, *prop)
-		relevant := len(obs) > 0 || hasProp(r.Props, *prop)
+		if relied[r.Name] {
+			reliedList = append(reliedList, r.Name)
+		}
+		relevant := len(obs) > 0 || hasProp(r.Props, *prop) || hasProp(r.AlsoProps, *prop)
 		if !relevant {
 			continue
 		}
-		if r.Unsupported != "" && hasProp(r.Props, *prop) && !strings.Contains(r.Unsupported, "trusted") {
+		if r.Unsupported != "" && (hasProp(r.Props, *prop) || hasProp(r.AlsoProps, *prop)) && !strings.Contains(r.Unsupported, "trusted") {
 			unsupported = append(unsupported, r.Name+": "+r.Unsupported)
 		}
 		if r.Unsupported != "" && strings.Contains(r.Unsupported, "trusted") && hasProp(r.Props, *prop) {
@@ -406,6 +436,7 @@ func checkMain(args []string) {
 			"per_obligation":                                       recs,
 			"locked_obligations":                                   len(lock),
 			"shared_state_scan":                                    sharedScan,
+			"callee_contracts_relied_upon_checked_under_their_own_properties": reliedList,
 			"generated_but_not_claimed":                            append(notClaimed, skippedQuick...),
 		},
 	}
